@@ -238,6 +238,7 @@ def subst_term(t,mapping):
     if not isinstance(t,tuple): return t
     if t[0]=='sc' and t in mapping: return mapping[t]
     return tuple(subst_term(x,mapping) if isinstance(x,tuple) else x for x in t)
+LOSSY_BIGINT=re.compile(r'::modpow$|::modinv$|Roots::(sqrt|cbrt|nth_root)$|BigU?int::(sqrt|cbrt|nth_root)$|Integer::(div_floor|mod_floor|div_mod_floor|div_rem|div_ceil|gcd|lcm)$|::div_euclid$|::rem_euclid$|ops::(Shr|Shl|BitAnd|BitOr|BitXor)(Assign)?::|::trailing_zeros$|::set_bit$')
 PRECONDS={}   # function name -> list of (rel, a, b, text): obligations lifted to the call sites
 class An:
     def __init__(self,fn,kind,lift=False,arg_offset=0,scale_params=()):
@@ -721,6 +722,10 @@ class An:
             a,b=args[0],args[1]
             if isinstance(a,IntV) and isinstance(b,IntV): a.val,b.val=b.val,a.val; a.dim,b.dim=b.dim,a.dim
         elif re.search(r'bits$',d): v=UNK
+        elif LOSSY_BIGINT.search(d) and any(isinstance(x,IntV) for x in args):
+            # a big-integer operation that is not value-exact (modular, root, shift, quotient...) applied to operand-derived integers
+            v=IntV('lossy',('unk','lossy@%d'%line)); self.lossy_seen.append(line)
+            if BIG.search(dest['ty']) is None and not dest['ty'].startswith('('): v=UNK
         self.write(s,dest,v)
 def kernels(F):
     out = []
